@@ -22,7 +22,7 @@ SPEC = {
                     "vlib/avm.py sanitizers"],
     "min_evaluations": {"quick": 8000, "thorough": 60000},
     "must_reach": ["abstract_ok", "forced_branches", "routines_analysed", "concrete_runs", "frame_routines", "src_catalogue", "src_recipe", "src_abi", "src_router", "src_corpus", "src_suite", "typed_join_rejected"],
-    "shard_timeout": {"quick": 600, "thorough": 7200},
+    "shard_timeout": {"quick": 2400, "thorough": 14400},
 }
 
 KNOWN_OPT = "C05-optimizer-unpaired-store"
